@@ -179,7 +179,7 @@ def run_check(prop, tier, seed, campaign, replay=None):
     res = campaign(ctx)
 
     kf = known_findings()
-    open_sigs = [(e['signature'], e) for e in kf.get('open', []) if prop in e.get('properties', [])]
+    open_sigs = [(sg, e) for e in kf.get('open', []) if prop in e.get('properties', []) for sg in e.get('signatures', {}).get(prop, [])]
     lines, exit_code, nviol = [], 0, 0
     seen_known = set()
     reported = 0
